@@ -31,6 +31,15 @@ claim('C11', 'proof',
  "trusted: Coq kernel, extraction (fast driver cross-checked against pure), harness; Karatsuba's scratch-buffer layout is modelled functionally (its byte budget is C16's subject)",
  "DESIGN.md section 4, C11")
 
+claim('C19', 'proof',
+ "Coq theorems: the selector's rule for every integer lambda (abort iff lambda<=0 or >128, 80-bit set for 1..80, 128-bit set for 81..128, never weaker); over facts regenerated from the built library on every run (the real selector called for every lambda in [-5,300] and the int32 extremes, every field dumped exactly): observed = rule + documented sets, derived fields (Bg, halfBg, maskMod, kpl, offset, h_i, extracted n) equal the C12 model's, structural constraints, >=12 standard deviations of margin at every gate under formulas F1-F3 in exact rational arithmetic (13 fails: the statement is tight)",
+ "trusted: Coq kernel + vm_compute, the facts generator (harness/params_dump.cpp, tools/gen_params_facts.py); F1-F3 are this development's formalisation of the library's noise formulas (DESIGN.md C19)",
+ "DESIGN.md section 4, C19", "machine-checked proof in Coq over facts regenerated from the build")
+claim('C20', 'proof',
+ "Coq: a System V layout function proved well-formed for every member list and insensitive to non-data members; over facts regenerated from the build on every run (nm -D of the ten libraries, prototypes of the C view of tfhe.h, sizeof/alignof/offsetof printed by a C and a C++ translation unit, members parsed from both preprocessed views, displacement literals of the spqlios kernels, each public header compiled alone in both languages) the finite statements are decided by vm_compute: same members/no virtual, layout model = both compilers, C = C++ layout, every public API function an unmangled T symbol of all ten libraries, assembly displacements = offsetof",
+ "trusted: gcc/g++/nm (facts), the header/prototype scanner in tools/props/c20.py; 3 prototypes are declared but defined in no variant (identical across variants; listed in the evidence)",
+ "DESIGN.md section 4, C20", "machine-checked layout model in Coq + finite checks by vm_compute over build facts")
+
 NA_REASON = "check not built yet in this revision (work in progress; DESIGN.md section 8 gives the order)"
 checks = []
 for p in props:
